@@ -389,11 +389,37 @@ def split_cases(ctx, n_frag, n_rich):
         cases.append(("rich", [[k, v] for k, v in da["definitions"].items()], [[k, v] for k, v in db["definitions"].items()]))
     return cases
 
-def split_histories(a, b):
+# one Rust path reached along different routes (a string format, the x-rust-type extension with and without parameters):
+# independent definitions whose order of addition must not matter; settings under which the extension is honoured
+def _xr(crate, path, params=None): return {"crate": crate, "version": "1.0.0", "path": path, **({"parameters": params} if params else {})}
+NATIVE_ROUTES = {
+    "ip": [{"type": "string", "format": "ip"}, {"type": "string", "x-rust-type": _xr("std", "std::net::IpAddr")},
+           {"type": "object", "properties": {"addr": {"type": "string", "format": "ip"}}},
+           {"type": "object", "properties": {"peer": {"type": "string", "x-rust-type": _xr("std", "std::net::IpAddr")}}}],
+    "ipv4": [{"type": "string", "format": "ipv4"}, {"type": "string", "x-rust-type": _xr("std", "std::net::Ipv4Addr")},
+             {"type": "array", "items": {"type": "string", "format": "ipv4"}}],
+    "uuid": [{"type": "string", "format": "uuid"}, {"type": "string", "x-rust-type": _xr("uuid", "uuid::Uuid")},
+             {"oneOf": [{"type": "string", "format": "uuid"}, {"type": "integer"}]}],
+    "datetime": [{"type": "string", "format": "date-time"}, {"type": "string", "x-rust-type": _xr("chrono", "chrono::DateTime", [{"type": "string", "x-rust-type": _xr("chrono", "chrono::offset::Utc")}])},
+                 {"type": "string", "x-rust-type": _xr("chrono", "chrono::DateTime<chrono::offset::Utc>")}],
+}
+NATIVE_SETTINGS = [{"unknown": "Allow"}, {"crates": [["std", "*", None], ["uuid", "*", None], ["chrono", "*", None]]}]
+
+def native_split_cases(rng, n):
+    out = []
+    for k in range(n):
+        fam = rng.choice(sorted(NATIVE_ROUTES))
+        ra, rb = rng.sample(NATIVE_ROUTES[fam], 2)
+        out.append(("natives", [["Aa" + fam.capitalize(), copy.deepcopy(ra)]], [["Bb" + fam.capitalize(), copy.deepcopy(rb)]], NATIVE_SETTINGS[k % 2]))
+    return out
+
+def split_histories(a, b, settings=None):
     hs = [{"calls": [{"defs_list": a + b}]},
           {"calls": [{"defs_list": a}, {"defs_list": b}]},
           {"calls": [{"defs_list": b}, {"defs_list": a}]},
           {"calls": [{"defs_list": b + a}]}]
+    if settings:
+        for h in hs: h["settings"] = settings
     return hs
 
 def split_oracle(outs):
@@ -475,7 +501,9 @@ def run(ctx):
             else: new_fail.append({"history": h, "clause": clause, "call": k, "detail": det, "kind": kind})
     # (iv) split / permutation
     sc = split_cases(ctx, n_split_f, n_split_r)
-    shs = [split_histories(a, b) for _, a, b in sc]
+    nsc = native_split_cases(ctx.rng, 12 if quick else 200)
+    shs = [split_histories(a, b) for _, a, b in sc] + [split_histories(a, b, st_) for _, a, b, st_ in nsc]
+    sc = sc + [(k_, a, b) for k_, a, b, _ in nsc]
     souts = run_impl([json.dumps(h) for hs in shs for h in hs], "split")
     split_bad, split_ok, split_allfail = [], 0, 0
     for k, ((kind, a, b), hs) in enumerate(zip(sc, shs)):
